@@ -7,6 +7,8 @@ import json
 import os
 import random
 import shutil
+import subprocess
+import sys
 import tempfile
 import time
 
@@ -32,7 +34,10 @@ RULE = (
     "files of other types (each file must carry its own doc, schema fields and records); record types WITHOUT own fields "
     "(RecordDescriptor(name, [])): N records differing only in the reserved slots, then a record of another type / another "
     "field-less type, a field-less record after a normal type, an empty GroupedRecord first; the sink is a path or an "
-    "io.BytesIO handed to AvroWriter; three modes: clean (only mappable records), stop (close after the "
+    "io.BytesIO handed to AvroWriter; the second-type / unmapped / grouped / field-less / out-of-range refusal workloads are "
+    "re-run in child interpreters under -O, -OO, PYTHONOPTIMIZE=1|2 with the same oracle; Avro written to the REAL stdout "
+    "of a child (RecordWriter('avro://-'|'avro://'), rdump -w avro://-) x writer finished by close() alone / with-block / "
+    "flush+close / garbage collection x 0/1/3/2500 records, parsed by the parent with fastavro and the library; three modes: clean (only mappable records), stop (close after the "
     "first refusal), continue (keep writing after refusals).  Oracle (independent model verif/avro_c19.py, never "
     "AVRO_TYPE_MAP): a record whose descriptor is the file's type and whose every slot is in the Avro range MUST be accepted; "
     "any other record is refused with an exception or else stored faithfully (a grouped record: its flat values under its "
@@ -72,6 +77,11 @@ ANCHORS = [
 MODES = ("clean", "stop", "continue")
 # record types WITHOUT own fields (only the reserved slots): N of them; then a record of another mapped type; then a record of
 # another field-less type; a normal type first and a field-less record later; a field-less GroupedRecord (no members) first
+# interpreter settings under which assertions are stripped: the refusal workloads run in such a child with the same oracle
+OPTIMIZED = ("-O", "-OO", "PYTHONOPTIMIZE=1", "PYTHONOPTIMIZE=2")
+# Avro to the REAL stdout of a child process; how the writer is finished
+STDOUT_TARGETS = ("avro://-", "avro://", "rdump -w avro://-")
+STDOUT_FINISH = ("close", "with", "flush+close", "gc")
 FIELDLESS_SHAPES = ("only", "then-other", "then-other-fieldless", "other-then-fieldless", "empty-group-first")
 PARTIAL_BLOCK_KEY = "avro-refused-record-partial-block"
 ENCODER_REASONS = ("int-range", "long-range", "surrogate-text", "digest", "float-range", "datetime-range")
@@ -105,7 +115,7 @@ def teardown(ctx):
 
 def generate(ctx):
     for j, case in enumerate(_generate(ctx)):
-        if case["k"] != "multi" and "sink" not in case:
+        if case["k"] not in ("multi", "optimized", "stdout-child") and "sink" not in case:
             case["sink"] = "bytesio" if (j % 3 == 2) else "path"
         yield case
 
@@ -149,6 +159,18 @@ def _generate(ctx):
                         if ctx.mine(idx):
                             yield {"k": "multi", "pair": pair, "order": order, "layout": layout, "others": others, "mode": "clean",
                                    "s": subseed("c19", ctx.seed, "multi", pair, order, layout, others, rep)}
+                        idx += 1
+        for i, flags in enumerate(OPTIMIZED):
+            if ctx.mine(idx):
+                yield {"k": "optimized", "flags": flags, "mode": "continue", "s": subseed("c19", ctx.seed, "optimized", i, rep)}
+            idx += 1
+        if rep < ctx.scale(1, 3):
+            for target in STDOUT_TARGETS:
+                for finish in (STDOUT_FINISH if not target.startswith("rdump") else ("rdump",)):
+                    for count in (0, 1, 3, 2500):
+                        if ctx.mine(idx):
+                            yield {"k": "stdout-child", "target": target, "finish": finish, "count": count, "mode": "clean",
+                                   "s": subseed("c19", ctx.seed, "stdout", target, finish, count, rep)}
                         idx += 1
         for ut in am.UNMAPPED_TYPES:
             for pos in ("first", "later"):
@@ -430,11 +452,207 @@ def execute_multi(ctx, case):
     ctx.sample({"case": case, "descriptors": detail["descriptors"][:3], "identifiers": detail["identifiers"][:3]}, kind="multi:" + case["pair"])
 
 
+def optimized_recipes(case):
+    """The refusal workloads handed to a child interpreter that runs without assertions."""
+    out = []
+    s = case["s"]
+    sinks = ("path", "bytesio")
+    n = 0
+    for kind in am.VARIANT_KINDS:
+        for pos in ("first", "later"):
+            for mode in ("continue", "stop"):
+                n += 1
+                out.append({"k": "mixed", "variant": kind, "pos": pos, "mode": mode, "sink": sinks[n % 2], "s": subseed("c19o", s, kind, pos, mode)})
+    for ut in am.UNMAPPED_TYPES[:6]:
+        out.append({"k": "unmapped", "ut": ut, "pos": "later", "mode": "continue", "sink": "path", "s": subseed("c19o", s, ut)})
+    for members in (1, 2):
+        for same_name in (False, True):
+            out.append({"k": "grouped", "members": members, "pos": "later", "same_name": same_name, "mode": "continue", "sink": "path",
+                        "s": subseed("c19o", s, "grouped", members, same_name)})
+    for shape in ("then-other", "then-other-fieldless", "other-then-fieldless"):
+        out.append({"k": "fieldless", "shape": shape, "mode": "continue", "sink": sinks[n % 2], "s": subseed("c19o", s, shape)})
+    for t, vc in (("varint", "out_of_range"), ("uint32", "out_of_range"), ("string", "surrogate")):
+        out.append({"k": "cell", "t": t, "vc": vc, "mode": "continue", "sink": "path", "s": subseed("c19o", s, t, vc)})
+    return out
+
+
+def execute_optimized(ctx, case):
+    """Run the refusal workloads in a child interpreter with assertions disabled; same oracle, verdicts merged."""
+    flags = case["flags"]
+    ctx.ev()
+    ctx.state["child_cases"] = ctx.state.get("child_cases", 0) + 1
+    here = os.path.dirname(os.path.abspath(__file__))
+    child = os.path.join(os.path.dirname(here), "child_c19.py")
+    verif_dir = os.path.dirname(os.path.dirname(here))
+    repo = os.environ.get("VERIF_REPO", "/repo")
+    env = dict(os.environ)
+    env.pop("PYTHONOPTIMIZE", None)
+    argv = [sys.executable, "-W", "ignore"]
+    if flags.startswith("-"):
+        argv.append(flags)
+    else:
+        k, _, v = flags.partition("=")
+        env[k] = v
+    argv += [child, repo, verif_dir]
+    recipes = optimized_recipes(case)
+    job = json.dumps({"cases": recipes, "tier": ctx.tier, "seed": ctx.seed})
+    try:
+        p = subprocess.run(argv, input=job.encode(), stdout=subprocess.PIPE, stderr=subprocess.PIPE, timeout=900, env=env)
+        out = json.loads(p.stdout.decode("utf-8", "replace")) if p.returncode == 0 else None
+    except (subprocess.TimeoutExpired, ValueError) as e:
+        p, out = None, None
+        ctx.note("child_error", repr(e)[:200])
+    if not out:
+        ctx.require(False, "the child interpreter (%s) failed: %s" % (flags, (p.stderr.decode("utf-8", "replace")[-400:] if p else "timeout / bad output")))
+        return
+    ctx.require(out.get("optimize", 0) >= 1, "the child interpreter (%s) did not run with assertions disabled" % flags)
+    summ = out["summary"]
+    for ident, ent in summ["violations"].items():
+        w = ent["witnesses"][0] if ent["witnesses"] else {}
+        for _ in range(ent["count"]):
+            ctx.violation(ent["key"], "[python %s] %s" % (flags, ent["msg"]), detail={"child": flags, "detail": w.get("detail")}, case={"child_case": w.get("case"), "parent": case})
+    for k in ("records_offered", "records_accepted", "records_refused", "records_compared_flow", "records_compared_raw", "doc_checked", "files_read_back"):
+        ctx.event(k, summ["events"].get(k, 0))
+        ctx.event("optimized[%s]:%s" % (flags, k), summ["events"].get(k, 0))
+    for k, v in summ["events"].items():
+        if k.startswith("refused:second-type") or k.startswith("accepted:second-type"):
+            ctx.event("optimized[%s]:%s" % (flags, k), v)
+    ctx.event("optimized_children")
+    ctx.cell("optimized", flags)
+    ctx.nontrivial("optimized", flags, case["s"])
+    ctx.sample({"case": case, "child_optimize": out.get("optimize"), "child_evaluations": summ["evaluations"], "recipes": len(recipes)}, kind="optimized:" + flags)
+
+
+STDOUT_CHILD = (
+    "import gc, sys, warnings\n"
+    "warnings.simplefilter('ignore')\n"
+    "from flow.record import RecordReader, RecordWriter\n"
+    "url, finish, src = sys.argv[1:4]\n"
+    "recs = list(RecordReader(src))\n"
+    "if finish == 'with':\n"
+    "    with RecordWriter(url) as w:\n"
+    "        for r in recs:\n"
+    "            w.write(r)\n"
+    "else:\n"
+    "    w = RecordWriter(url)\n"
+    "    for r in recs:\n"
+    "        w.write(r)\n"
+    "    if finish == 'close':\n"
+    "        w.close()\n"
+    "    elif finish == 'flush+close':\n"
+    "        w.flush(); w.close()\n"
+    "    else:\n"
+    "        del w\n"
+    "        gc.collect()\n"
+)
+
+
+def execute_stdout_child(ctx, case):
+    """Avro written to the real stdout of a child process (RecordWriter('avro://-' | 'avro://'), `rdump -w avro://-`), the
+    writer finished with close() alone / a with-block / flush()+close() / garbage collection only; the parent parses the
+    captured bytes with fastavro and with the library."""
+    import fastavro
+    from flow.record import RecordReader, RecordWriter
+
+    target, finish, count = case["target"], case["finish"], case["count"]
+    ctx.ev()
+    ctx.state["child_cases"] = ctx.state.get("child_cases", 0) + 1
+    records = []
+    if count:
+        k = 0
+        while len(records) < count:
+            _, more = am.clean_sequence(case["s"] + k, n_records=count)
+            records = more if len(more) >= len(records) else records
+            k += 1
+            if k > 20:
+                break
+    ctx.state["n"] += 1
+    src = os.path.join(ctx.state["tmp"], "in%d.records" % ctx.state["n"])
+    w = RecordWriter(src)
+    try:
+        for r in records:
+            w.write(r)
+    finally:
+        w.flush()
+        w.close()
+    env = dict(os.environ)
+    repo = os.environ.get("VERIF_REPO")
+    if repo and os.path.realpath(repo) != "/repo":
+        env["PYTHONPATH"] = repo + os.pathsep + env.get("PYTHONPATH", "")
+    if target.startswith("rdump"):
+        exe = os.path.join(os.path.dirname(sys.executable), "rdump")
+        argv = ([exe] if os.path.exists(exe) else [sys.executable, "-m", "flow.record.tools.rdump"]) + [src, "-w", "avro://-"]
+    else:
+        argv = [sys.executable, "-W", "ignore", "-c", STDOUT_CHILD, target, finish, src]
+    try:
+        p = subprocess.run(argv, stdin=subprocess.DEVNULL, stdout=subprocess.PIPE, stderr=subprocess.PIPE, timeout=600, env=env, cwd=ctx.state["tmp"])
+    except subprocess.TimeoutExpired:
+        ctx.require(False, "a child writing Avro to its stdout did not finish within 600 s")
+        _cleanup(src)
+        return
+    _cleanup(src)
+    ctx.event("stdout_child:%s/%s" % (target, finish))
+    ctx.event("child_cases_done")
+    data = p.stdout
+    detail = {"target": target, "finish": finish, "records": len(records), "stdout_bytes": len(data), "returncode": p.returncode,
+              "stderr": p.stderr.decode("utf-8", "replace")[-400:]}
+    what = "Avro to the real stdout (%s, writer finished by %s)" % (target, finish)
+    if p.returncode != 0:
+        ctx.violation(None, "%s: the child failed" % what, detail=detail)
+        return
+    raw, raw_err, schema = [], None, None
+    try:
+        rdr = fastavro.reader(io.BytesIO(data))
+        schema = rdr.writer_schema
+        raw = list(rdr)
+    except Exception as e:  # noqa: BLE001
+        raw_err = e
+    got, err = [], None
+    try:
+        for r in RecordReader(fileobj=io.BytesIO(data)):
+            got.append(r)
+    except Exception as e:  # noqa: BLE001
+        err = e
+    if schema is None:
+        ctx.violation(None, "%s: a standard Avro reader cannot open the output" % what, detail=dict(detail, exception=repr(raw_err)[:300]))
+    else:
+        head, tail = compare_list(records, raw, raw_err, am.raw_diffs, len(records))
+        if head or tail:
+            ctx.violation(None, "%s: fastavro.reader does not see exactly the records written" % what, detail=dict(detail, read=len(raw), problems=(head + tail)[:4]))
+        if records:
+            doc = schema.get("doc") if isinstance(schema, dict) else None
+            try:
+                doc_val = json.loads(doc) if isinstance(doc, str) else None
+            except ValueError:
+                doc_val = None
+            if doc_val != observe.desc_obs(records[0]._desc):
+                ctx.violation(None, "%s: the schema does not carry the descriptor in 'doc'" % what, detail=dict(detail, doc=doc))
+            else:
+                ctx.event("doc_checked")
+    if records or err is None:
+        head, tail = compare_list(records, got, err, am.record_diffs, len(records))
+        if head or tail:
+            ctx.violation(None, "%s: AvroReader does not see exactly the records written" % what, detail=dict(detail, read=len(got), problems=(head + tail)[:4]))
+    elif got:
+        ctx.violation(None, "%s: records appear although none was written" % what, detail=detail)
+    ctx.event("records_compared_flow", min(len(records), len(got)))
+    ctx.event("records_compared_raw", min(len(records), len(raw)))
+    ctx.event("records_offered", len(records))
+    ctx.event("records_accepted", len(records))
+    ctx.cell("stdout-child", target, finish, count)
+    ctx.nontrivial("stdout-child", target, finish, count, case["s"])
+    ctx.sample({"case": case, "stdout_bytes": len(data), "read": len(got)}, kind="stdout:" + finish)
+
+
 def execute(ctx, case):
     from flow.record import RecordWriter
 
     if case["k"] == "multi":
         return execute_multi(ctx, case)
+    if case["k"] == "optimized":
+        return execute_optimized(ctx, case)
+    if case["k"] == "stdout-child":
+        return execute_stdout_child(ctx, case)
     thorough = not ctx.quick
     recs = build_history(case, thorough)
     if not recs:
@@ -641,7 +859,7 @@ def _cleanup(path):
 
 def finish(ctx):
     ctx.state["reach"].into(ctx)
-    ctx.note("matrix_cells_expected", len(am.all_cells()) + len(am.VARIANT_KINDS) * 2 + len(am.UNMAPPED_TYPES) * 2 + 12 + 16 + len(FIELDLESS_SHAPES) * 4 if ctx.shard == 0 else 0)
+    ctx.note("matrix_cells_expected", len(am.all_cells()) + len(am.VARIANT_KINDS) * 2 + len(am.UNMAPPED_TYPES) * 2 + 12 + 16 + len(FIELDLESS_SHAPES) * 4 + len(OPTIMIZED) + (2 * 4 + 1) * 4 if ctx.shard == 0 else 0)
     ctx.note("avro_schema_types_seen", sorted(ctx.state.get("avro_types", ())))
     ctx.note("TZ", os.environ.get("TZ"))
     if ctx.evaluations:
@@ -651,3 +869,5 @@ def finish(ctx):
         ctx.require(ctx.events.get("records_compared_raw", 0) > 0, "no accepted record was compared through fastavro.reader")
         ctx.require(ctx.events.get("doc_checked", 0) > 0, "the embedded descriptor was never checked")
         ctx.require(ctx.events.get("records_refused", 0) > 0, "no refusal was observed")
+        done = ctx.events.get("optimized_children", 0) + ctx.events.get("child_cases_done", 0)
+        ctx.require(done == ctx.state.get("child_cases", 0), "a child-process case (optimised interpreter / real stdout) did not run to completion")
